@@ -33,24 +33,31 @@ def load_model_from_file(path, register=False):
         If the model cannot be imported
     """
     path = pathlib.Path(path)
+    path_entry = str(path.parent)
+    # remember the interpreter state that is changed temporarily
+    dont_write_bytecode = sys.dont_write_bytecode
+    # insert the plugin directory to sys.path so we can import it
+    pos = max(len(sys.path) - 1, 0)
+    sys.path.insert(pos, path_entry)
+    sys.dont_write_bytecode = True
     try:
-        # insert the plugin directory to sys.path so we can import it
-        sys.path.insert(-1, str(path.parent))
-        sys.dont_write_bytecode = True
         module = importlib.import_module(path.stem)
     except ModuleNotFoundError:
         raise ModelImportError(f"Could not import '{path}'!")
     finally:
-        # undo our path insertion
-        sys.path.remove(str(path.parent))
-        sys.dont_write_bytecode = False
+        # undo our path insertion (and only ours)
+        if sys.path[pos:pos + 1] == [path_entry]:
+            del sys.path[pos]
+        else:
+            sys.path.remove(path_entry)
+        sys.dont_write_bytecode = dont_write_bytecode
 
-        mod = NaniteFitModel(module)
+    mod = NaniteFitModel(module)
 
-        if register:
-            register_model(module)
+    if register:
+        register_model(module)
 
-        return mod
+    return mod
 
 
 def register_model(module, *args):
